@@ -105,7 +105,10 @@ func accessPath(v ssa.Value) string {
 	return "V:" + v.Name()
 }
 
-func pathIsFresh(p string) bool { return strings.HasPrefix(p, "NEW:") }
+// pathIsFresh: the location belongs to an object allocated in this function
+// (not yet shared).  A path that dereferences a pointer held in a local cell
+// ("NEW:x*...") denotes whatever was stored there, not a fresh object.
+func pathIsFresh(p string) bool { return strings.HasPrefix(p, "NEW:") && !strings.Contains(p, "*") }
 
 func lockOp(call ssa.CallInstruction) (op string, recv ssa.Value) {
 	n := CalleeName(call)
